@@ -632,14 +632,7 @@ func ruleC04(p *Program, r *Run) {
 func ruleC04Assembled(p *Program, r *Run) {
 	pkg := p.PQL
 	info := pkg.TypesInfo
-	isBuilderString := func(e ast.Expr) bool {
-		call, ok := ast.Unparen(e).(*ast.CallExpr)
-		if !ok {
-			return false
-		}
-		sel, ok := ast.Unparen(call.Fun).(*ast.SelectorExpr)
-		return ok && sel.Sel.Name == "String" && isBuilder(info, sel.X)
-	}
+	isBuilderString := func(e ast.Expr) bool { return p.assembledSQL(e, 0) }
 	n := 0
 	for _, fd := range AllFuncs(pkg) {
 		fn := FuncName(pkg, fd)
@@ -932,12 +925,24 @@ func ruleC02Clauses(p *Program, r *Run) {
 			if len(ts.Types[cc]) != 1 || ts.Types[cc][0] == nil || TypeStr(ts.Types[cc][0]) != "*parser.SummarizeOperator" {
 				continue
 			}
+			// the select list is produced by loops over the operator's fields, or over a list they were appended to
+			// (outputCols = append(outputCols, op.GroupBy...)): the first use of GroupBy comes before the first of Cols
 			var order []string
+			seenF := map[string]bool{}
+			note := func(x ast.Expr) {
+				if f := selField(info, x); f != nil && !seenF[f.Name()] {
+					seenF[f.Name()] = true
+					order = append(order, f.Name())
+				}
+			}
 			for _, root := range p.regionOf(p.PQL, cc) {
 				ast.Inspect(root, func(n ast.Node) bool {
-					if rs, ok := n.(*ast.RangeStmt); ok {
-						if f := selField(info, rs.X); f != nil {
-							order = append(order, f.Name())
+					switch v := n.(type) {
+					case *ast.RangeStmt:
+						note(v.X)
+					case *ast.CallExpr:
+						if IsBuiltinCall(info, v, "append") && v.Ellipsis.IsValid() && len(v.Args) == 2 {
+							note(v.Args[1])
 						}
 					}
 					return true
@@ -947,4 +952,89 @@ func ruleC02Clauses(p *Program, r *Run) {
 			r.Check(ok, "C02/clauses", fn+" summarize lists group keys before aggregates", p.Pos(cc.Pos()), "select list: GroupBy loop, then Cols loop", fmt.Sprintf("the summarize select list is written in the order %v; documented: group keys first, then aggregates", order))
 		}
 	}
+}
+
+// assembledSQL: the string is text that went through a checked builder: `<builder>.String()`, a variable that only
+// ever receives such text, the result of a function of the compiler all of whose returns give such text (or "" next
+// to an error), or a parameter that receives such text at every call.
+func (p *Program) assembledSQL(x ast.Expr, depth int) bool {
+	if x == nil || depth > 4 {
+		return false
+	}
+	info := p.Info
+	x = ast.Unparen(x)
+	switch v := x.(type) {
+	case *ast.CallExpr:
+		if sel, ok := ast.Unparen(v.Fun).(*ast.SelectorExpr); ok && sel.Sel.Name == "String" && isBuilder(info, sel.X) {
+			return true
+		}
+		f := Callee(info, v)
+		decl, dpkg := p.DeclOf(f)
+		if decl == nil || dpkg != p.PQL || decl.Body == nil {
+			return false
+		}
+		sig := f.Type().(*types.Signature)
+		if sig.Results().Len() < 1 || TypeStr(sig.Results().At(0).Type()) != "string" {
+			return false
+		}
+		ok, n := true, 0
+		ast.Inspect(decl.Body, func(m ast.Node) bool {
+			switch r := m.(type) {
+			case *ast.FuncLit:
+				return false
+			case *ast.ReturnStmt:
+				if len(r.Results) < 1 {
+					ok = false
+					return true
+				}
+				n++
+				if s, isC := constString(info, r.Results[0]); isC && s == "" {
+					return true
+				}
+				if !p.assembledSQL(r.Results[0], depth+1) {
+					ok = false
+				}
+			}
+			return true
+		})
+		return ok && n > 0
+	case *ast.Ident:
+		o, isVar := objOf(info, v).(*types.Var)
+		if !isVar || o.IsField() {
+			return false
+		}
+		// a parameter: every call site
+		if fd := p.FuncAt(o.Pos()); fd != nil {
+			idx, i := -1, 0
+			for _, f := range fd.Type.Params.List {
+				for _, nm := range f.Names {
+					if info.Defs[nm] == types.Object(o) {
+						idx = i
+					}
+					i++
+				}
+			}
+			if idx >= 0 {
+				fobj := FuncObj(p.PQL, fd)
+				if fobj == nil || fobj.Exported() || !p.onlyCalledDirectly(fobj) || !p.neverReassigned(o) {
+					return false
+				}
+				calls, all := 0, true
+				for _, caller := range AllFuncs(p.PQL) {
+					ast.Inspect(caller.Body, func(m ast.Node) bool {
+						if call, ok := m.(*ast.CallExpr); ok && Callee(info, call) == fobj && idx < len(call.Args) {
+							calls++
+							if !p.assembledSQL(call.Args[idx], depth+1) {
+								all = false
+							}
+						}
+						return true
+					})
+				}
+				return calls > 0 && all
+			}
+		}
+		return p.allDefsAre(v, func(d ast.Expr) bool { return p.assembledSQL(d, depth+1) })
+	}
+	return false
 }
